@@ -184,7 +184,7 @@ def from_tree(t):
         return _EXC[a[0]](msg) if not msg.startswith("!") else _EXC[a[0]](*eval(msg[1:]))
     if h == "C":
         return _EXC[a[0]]
-    if h == "F":
+    if h is False:                    # (F name): the head atom F parses as False
         return L.PYFUNCS[a[0]]
     if h is True:                     # (T name): the head atom T parses as True
         return _registry_task(a[0])
